@@ -1,9 +1,10 @@
 SPECIFICATION Spec
 CONSTANTS
-  Deltas = {-2, -1, 1, 2, 7}
   Pairwise = FALSE
   MaxLabel = 63
   MaxName = 255
-INVARIANT ExactOK
+  Alphabet = {0, 97, 46, 92, 61, 128, 195, 169, 255}
+  L = 4
+INVARIANT RefOK
 INVARIANT Emit
 CHECK_DEADLOCK FALSE
